@@ -23,6 +23,8 @@ struct Case {
     expect_tunnel: Option<SocketAddr>,
     /// the request is incomplete: the front-end legitimately waits for the rest
     truncated: bool,
+    /// seconds of silence after every piece but the last (only on the current-thread pass, whose clock is jumped)
+    gap_s: u64,
 }
 
 fn req(ver: u8, cmd: u8, rsv: u8, atyp: u8, addr: &[u8], port: u16) -> Vec<u8> {
@@ -72,7 +74,7 @@ async fn run_case(w: &World, c: &Case, idx: usize) -> Vec<(String, String)> {
         if s.write_all(&c.greeting).await.is_err() {
             return v;
         }
-    } else if send_fragmented(&mut s, &all, &c.cuts).await.is_err() {
+    } else if (if c.gap_s > 0 { crate::lx::send_fragmented_gap(&mut s, &all, &c.cuts, c.gap_s).await } else { send_fragmented(&mut s, &all, &c.cuts).await }).is_err() {
         // the front-end may close early on malformed input; fine
     }
     // ---- method reply
@@ -223,60 +225,60 @@ pub fn run(tier: Tier) -> i32 {
                 let mut g = vec![ver, l.len() as u8];
                 g.extend_from_slice(l);
                 let ok = ver == 5 && l.contains(&0);
-                cases.push(Case { name: format!("greeting ver={ver} methods={:02x?}", if l.len() > 6 { &l[..6] } else { &l[..] }), greeting: g, request: Some(good_req.clone()), cuts: vec![], expect_method_ok: ok, expect_tunnel: if ok { Some(a4) } else { None }, truncated: false });
+                cases.push(Case { name: format!("greeting ver={ver} methods={:02x?}", if l.len() > 6 { &l[..6] } else { &l[..] }), greeting: g, request: Some(good_req.clone()), cuts: vec![], expect_method_ok: ok, expect_tunnel: if ok { Some(a4) } else { None }, truncated: false, gap_s: 0 });
             }
         }
         // ---- requests
         let g = vec![5u8, 1, 0];
         for cmd in 0..=255u8 {
-            cases.push(Case { name: format!("cmd={cmd:#04x} atyp=1"), greeting: g.clone(), request: Some(req(5, cmd, 0, 1, &ip4(a4), a4.port())), cuts: vec![], expect_method_ok: true, expect_tunnel: if cmd == 1 { Some(a4) } else { None }, truncated: false });
+            cases.push(Case { name: format!("cmd={cmd:#04x} atyp=1"), greeting: g.clone(), request: Some(req(5, cmd, 0, 1, &ip4(a4), a4.port())), cuts: vec![], expect_method_ok: true, expect_tunnel: if cmd == 1 { Some(a4) } else { None }, truncated: false, gap_s: 0 });
         }
         for cmd in [2u8, 3, 0, 0x81] {
-            cases.push(Case { name: format!("cmd={cmd:#04x} atyp=3 localhost"), greeting: g.clone(), request: Some(req(5, cmd, 0, 3, &[9, b'l', b'o', b'c', b'a', b'l', b'h', b'o', b's', b't'], a4.port())), cuts: vec![], expect_method_ok: true, expect_tunnel: None, truncated: false });
+            cases.push(Case { name: format!("cmd={cmd:#04x} atyp=3 localhost"), greeting: g.clone(), request: Some(req(5, cmd, 0, 3, &[9, b'l', b'o', b'c', b'a', b'l', b'h', b'o', b's', b't'], a4.port())), cuts: vec![], expect_method_ok: true, expect_tunnel: None, truncated: false, gap_s: 0 });
         }
         for rsv in [0u8, 1, 0xff] {
-            cases.push(Case { name: format!("rsv={rsv}"), greeting: g.clone(), request: Some(req(5, 1, rsv, 1, &ip4(a4b), a4b.port())), cuts: vec![], expect_method_ok: true, expect_tunnel: Some(a4b), truncated: false });
+            cases.push(Case { name: format!("rsv={rsv}"), greeting: g.clone(), request: Some(req(5, 1, rsv, 1, &ip4(a4b), a4b.port())), cuts: vec![], expect_method_ok: true, expect_tunnel: Some(a4b), truncated: false, gap_s: 0 });
         }
         for ver in [4u8, 0, 6] {
-            cases.push(Case { name: format!("request version {ver}"), greeting: g.clone(), request: Some(req(ver, 1, 0, 1, &ip4(a4), a4.port())), cuts: vec![], expect_method_ok: true, expect_tunnel: None, truncated: false });
+            cases.push(Case { name: format!("request version {ver}"), greeting: g.clone(), request: Some(req(ver, 1, 0, 1, &ip4(a4), a4.port())), cuts: vec![], expect_method_ok: true, expect_tunnel: None, truncated: false, gap_s: 0 });
         }
         for atyp in [0u8, 2, 5, 255] {
-            cases.push(Case { name: format!("atyp={atyp}"), greeting: g.clone(), request: Some(req(5, 1, 0, atyp, &ip4(a4), a4.port())), cuts: vec![], expect_method_ok: true, expect_tunnel: None, truncated: false });
+            cases.push(Case { name: format!("atyp={atyp}"), greeting: g.clone(), request: Some(req(5, 1, 0, atyp, &ip4(a4), a4.port())), cuts: vec![], expect_method_ok: true, expect_tunnel: None, truncated: false, gap_s: 0 });
         }
         // every port byte pattern on the second target address (distinct listener) + refusing port
-        cases.push(Case { name: "ipv4 refusing port".into(), greeting: g.clone(), request: Some(req(5, 1, 0, 1, &[127, 0, 0, 1], w.closed_port)), cuts: vec![], expect_method_ok: true, expect_tunnel: None, truncated: false });
-        cases.push(Case { name: "domain localhost".into(), greeting: g.clone(), request: Some(req(5, 1, 0, 3, &[9, b'l', b'o', b'c', b'a', b'l', b'h', b'o', b's', b't'], a4.port())), cuts: vec![], expect_method_ok: true, expect_tunnel: Some(a4), truncated: false });
-        cases.push(Case { name: "domain unresolvable".into(), greeting: g.clone(), request: Some(req(5, 1, 0, 3, &[b"\x13nonexistent.invalid"[0], b'n', b'o', b'n', b'e', b'x', b'i', b's', b't', b'e', b'n', b't', b'.', b'i', b'n', b'v', b'a', b'l', b'i', b'd'], 80)), cuts: vec![], expect_method_ok: true, expect_tunnel: None, truncated: false });
-        cases.push(Case { name: "domain length 0".into(), greeting: g.clone(), request: Some(req(5, 1, 0, 3, &[0], 80)), cuts: vec![], expect_method_ok: true, expect_tunnel: None, truncated: false });
+        cases.push(Case { name: "ipv4 refusing port".into(), greeting: g.clone(), request: Some(req(5, 1, 0, 1, &[127, 0, 0, 1], w.closed_port)), cuts: vec![], expect_method_ok: true, expect_tunnel: None, truncated: false, gap_s: 0 });
+        cases.push(Case { name: "domain localhost".into(), greeting: g.clone(), request: Some(req(5, 1, 0, 3, &[9, b'l', b'o', b'c', b'a', b'l', b'h', b'o', b's', b't'], a4.port())), cuts: vec![], expect_method_ok: true, expect_tunnel: Some(a4), truncated: false, gap_s: 0 });
+        cases.push(Case { name: "domain unresolvable".into(), greeting: g.clone(), request: Some(req(5, 1, 0, 3, &[b"\x13nonexistent.invalid"[0], b'n', b'o', b'n', b'e', b'x', b'i', b's', b't', b'e', b'n', b't', b'.', b'i', b'n', b'v', b'a', b'l', b'i', b'd'], 80)), cuts: vec![], expect_method_ok: true, expect_tunnel: None, truncated: false, gap_s: 0 });
+        cases.push(Case { name: "domain length 0".into(), greeting: g.clone(), request: Some(req(5, 1, 0, 3, &[0], 80)), cuts: vec![], expect_method_ok: true, expect_tunnel: None, truncated: false, gap_s: 0 });
         {
             let mut d = vec![255u8];
             d.extend(std::iter::repeat(b'a').take(255));
-            cases.push(Case { name: "domain length 255 (unresolvable)".into(), greeting: g.clone(), request: Some(req(5, 1, 0, 3, &d, 80)), cuts: vec![], expect_method_ok: true, expect_tunnel: None, truncated: false });
-            cases.push(Case { name: "domain length 1 (unresolvable)".into(), greeting: g.clone(), request: Some(req(5, 1, 0, 3, &[1, b'z'], 80)), cuts: vec![], expect_method_ok: true, expect_tunnel: None, truncated: false });
-            cases.push(Case { name: "domain invalid utf-8".into(), greeting: g.clone(), request: Some(req(5, 1, 0, 3, &[2, 0xff, 0xfe], 80)), cuts: vec![], expect_method_ok: true, expect_tunnel: None, truncated: false });
+            cases.push(Case { name: "domain length 255 (unresolvable)".into(), greeting: g.clone(), request: Some(req(5, 1, 0, 3, &d, 80)), cuts: vec![], expect_method_ok: true, expect_tunnel: None, truncated: false, gap_s: 0 });
+            cases.push(Case { name: "domain length 1 (unresolvable)".into(), greeting: g.clone(), request: Some(req(5, 1, 0, 3, &[1, b'z'], 80)), cuts: vec![], expect_method_ok: true, expect_tunnel: None, truncated: false, gap_s: 0 });
+            cases.push(Case { name: "domain invalid utf-8".into(), greeting: g.clone(), request: Some(req(5, 1, 0, 3, &[2, 0xff, 0xfe], 80)), cuts: vec![], expect_method_ok: true, expect_tunnel: None, truncated: false, gap_s: 0 });
         }
         if let Some(t6) = &w.t6 {
             let a6 = t6.addr;
             if let SocketAddr::V6(v6) = a6 {
-                cases.push(Case { name: "ipv6 ::1".into(), greeting: g.clone(), request: Some(req(5, 1, 0, 4, &v6.ip().octets(), a6.port())), cuts: vec![], expect_method_ok: true, expect_tunnel: Some(a6), truncated: false });
+                cases.push(Case { name: "ipv6 ::1".into(), greeting: g.clone(), request: Some(req(5, 1, 0, 4, &v6.ip().octets(), a6.port())), cuts: vec![], expect_method_ok: true, expect_tunnel: Some(a6), truncated: false, gap_s: 0 });
             }
         }
         // truncated requests (connection closed by the client mid-request is not observable; send and wait)
         for cut in 1..good_req.len() {
-            cases.push(Case { name: format!("request truncated to {cut} bytes"), greeting: g.clone(), request: Some(good_req[..cut].to_vec()), cuts: vec![], expect_method_ok: true, expect_tunnel: None, truncated: true });
+            cases.push(Case { name: format!("request truncated to {cut} bytes"), greeting: g.clone(), request: Some(good_req[..cut].to_vec()), cuts: vec![], expect_method_ok: true, expect_tunnel: None, truncated: true, gap_s: 0 });
         }
         // ---- data sent right behind the request (before the reply): it belongs to the tunnel and must arrive exactly once
         for early in [1usize, 700] {
             let mut r = good_req.clone();
             r.extend(std::iter::repeat(b'E').take(early));
-            cases.push(Case { name: format!("CONNECT followed at once by {early} data bytes"), greeting: g.clone(), request: Some(r), cuts: vec![], expect_method_ok: true, expect_tunnel: Some(a4), truncated: false });
+            cases.push(Case { name: format!("CONNECT followed at once by {early} data bytes"), greeting: g.clone(), request: Some(r), cuts: vec![], expect_method_ok: true, expect_tunnel: Some(a4), truncated: false, gap_s: 0 });
         }
         // ---- fragmentation of the canonical exchange (greeting and request pipelined): every single cut, byte at a time
         let total = g.len() + good_req.len();
         for cut in 1..total {
-            cases.push(Case { name: format!("canonical exchange cut at {cut}"), greeting: g.clone(), request: Some(good_req.clone()), cuts: vec![cut], expect_method_ok: true, expect_tunnel: Some(a4), truncated: false });
+            cases.push(Case { name: format!("canonical exchange cut at {cut}"), greeting: g.clone(), request: Some(good_req.clone()), cuts: vec![cut], expect_method_ok: true, expect_tunnel: Some(a4), truncated: false, gap_s: 0 });
         }
-        cases.push(Case { name: "canonical exchange byte at a time".into(), greeting: g.clone(), request: Some(good_req.clone()), cuts: (1..total).collect(), expect_method_ok: true, expect_tunnel: Some(a4), truncated: false });
+        cases.push(Case { name: "canonical exchange byte at a time".into(), greeting: g.clone(), request: Some(good_req.clone()), cuts: (1..total).collect(), expect_method_ok: true, expect_tunnel: Some(a4), truncated: false, gap_s: 0 });
         // greetings with several methods under every single cut (the request follows pipelined)
         for l in [vec![2u8, 1], vec![1, 0], vec![0, 1], vec![2, 1, 0x80], vec![1, 2, 0], vec![0x80, 0xff, 1], vec![0, 0, 0], vec![0xff, 0]] {
             let mut gg = vec![5u8, l.len() as u8];
@@ -287,9 +289,9 @@ pub fn run(tier: Tier) -> i32 {
                 if cut > gg.len() + 1 && !thorough {
                     continue;
                 }
-                cases.push(Case { name: format!("greeting methods={:02x?} + request, cut at {cut}", l), greeting: gg.clone(), request: Some(good_req.clone()), cuts: vec![cut], expect_method_ok: ok, expect_tunnel: if ok { Some(a4) } else { None }, truncated: false });
+                cases.push(Case { name: format!("greeting methods={:02x?} + request, cut at {cut}", l), greeting: gg.clone(), request: Some(good_req.clone()), cuts: vec![cut], expect_method_ok: ok, expect_tunnel: if ok { Some(a4) } else { None }, truncated: false, gap_s: 0 });
             }
-            cases.push(Case { name: format!("greeting methods={:02x?} + request, byte at a time", l), greeting: gg.clone(), request: Some(good_req.clone()), cuts: (1..tot).collect(), expect_method_ok: ok, expect_tunnel: if ok { Some(a4) } else { None }, truncated: false });
+            cases.push(Case { name: format!("greeting methods={:02x?} + request, byte at a time", l), greeting: gg.clone(), request: Some(good_req.clone()), cuts: (1..tot).collect(), expect_method_ok: ok, expect_tunnel: if ok { Some(a4) } else { None }, truncated: false, gap_s: 0 });
         }
         if let Some(t6) = &w.t6
             && let SocketAddr::V6(v6) = t6.addr
@@ -298,9 +300,9 @@ pub fn run(tier: Tier) -> i32 {
             let r6 = req(5, 1, 0, 4, &v6.ip().octets(), t6.addr.port());
             let tot = g.len() + r6.len();
             for cut in 1..tot {
-                cases.push(Case { name: format!("ipv6 exchange cut at {cut}"), greeting: g.clone(), request: Some(r6.clone()), cuts: vec![cut], expect_method_ok: true, expect_tunnel: Some(t6.addr), truncated: false });
+                cases.push(Case { name: format!("ipv6 exchange cut at {cut}"), greeting: g.clone(), request: Some(r6.clone()), cuts: vec![cut], expect_method_ok: true, expect_tunnel: Some(t6.addr), truncated: false, gap_s: 0 });
             }
-            cases.push(Case { name: "ipv6 exchange byte at a time".into(), greeting: g.clone(), request: Some(r6.clone()), cuts: (1..tot).collect(), expect_method_ok: true, expect_tunnel: Some(t6.addr), truncated: false });
+            cases.push(Case { name: "ipv6 exchange byte at a time".into(), greeting: g.clone(), request: Some(r6.clone()), cuts: (1..tot).collect(), expect_method_ok: true, expect_tunnel: Some(t6.addr), truncated: false, gap_s: 0 });
         }
         // every port byte pattern that could be mangled: boundary ports on the second IPv4 target are not bindable at will,
         // so requests to refusing ports with telling byte patterns must fail (never reach a listener)
@@ -308,14 +310,14 @@ pub fn run(tier: Tier) -> i32 {
             if port == a4.port() || port == a4b.port() {
                 continue;
             }
-            cases.push(Case { name: format!("CONNECT to 127.0.0.3:{port} (nothing listens)"), greeting: g.clone(), request: Some(req(5, 1, 0, 1, &[127, 0, 0, 3], port)), cuts: vec![], expect_method_ok: true, expect_tunnel: None, truncated: false });
+            cases.push(Case { name: format!("CONNECT to 127.0.0.3:{port} (nothing listens)"), greeting: g.clone(), request: Some(req(5, 1, 0, 1, &[127, 0, 0, 3], port)), cuts: vec![], expect_method_ok: true, expect_tunnel: None, truncated: false, gap_s: 0 });
         }
         {
             // domain request fragmented
             let dr = req(5, 1, 0, 3, &[9, b'l', b'o', b'c', b'a', b'l', b'h', b'o', b's', b't'], a4.port());
             let tot = g.len() + dr.len();
             for cut in 1..tot {
-                cases.push(Case { name: format!("domain exchange cut at {cut}"), greeting: g.clone(), request: Some(dr.clone()), cuts: vec![cut], expect_method_ok: true, expect_tunnel: Some(a4), truncated: false });
+                cases.push(Case { name: format!("domain exchange cut at {cut}"), greeting: g.clone(), request: Some(dr.clone()), cuts: vec![cut], expect_method_ok: true, expect_tunnel: Some(a4), truncated: false, gap_s: 0 });
             }
         }
         let cases: Vec<Case> = cases;
@@ -335,7 +337,7 @@ pub fn run(tier: Tier) -> i32 {
             }
         }
         // after all the malformed input a canonical request still succeeds
-        let fin = Case { name: "canonical request after all malformed cases".into(), greeting: g.clone(), request: Some(good_req.clone()), cuts: vec![], expect_method_ok: true, expect_tunnel: Some(a4), truncated: false };
+        let fin = Case { name: "canonical request after all malformed cases".into(), greeting: g.clone(), request: Some(good_req.clone()), cuts: vec![], expect_method_ok: true, expect_tunnel: Some(a4), truncated: false, gap_s: 0 };
         let r = run_case(&w, &fin, 999_999).await;
         let mut cases = cases;
         cases.push(fin);
@@ -343,6 +345,50 @@ pub fn run(tier: Tier) -> i32 {
         Ok((cases, out))
     });
     drop(rt);
+    // ---- second pass: the same exchanges with long silences between the pieces (a slow or bursty client). The whole
+    // world runs on a current-thread runtime whose clock is jumped during the silence.
+    let res2: Result<(Vec<Case>, Vec<Vec<(String, String)>>), String> = tokio::runtime::Builder::new_current_thread().enable_all().build().unwrap().block_on(async {
+        let lx = start_lx("pw", "pw", pool_cfg(3600, 3600, 1), true, false).await?;
+        let t4 = start_target("127.0.0.1", TargetMode::Echo, vec![]).await;
+        let t4b = start_target("127.0.0.2", TargetMode::Echo, vec![]).await;
+        let t6 = if tokio::net::TcpListener::bind("[::1]:0").await.is_ok() { Some(start_target("::1", TargetMode::Echo, vec![]).await) } else { None };
+        let (closed_port, guard) = refusing_port("127.0.0.1");
+        let w = World { socks: lx.socks.unwrap(), t4, t4b, t6, closed_port, _guard: guard };
+        let a4 = w.t4.addr;
+        let ip4 = |a: SocketAddr| -> Vec<u8> { match a { SocketAddr::V4(v) => v.ip().octets().to_vec(), _ => vec![] } };
+        let g = vec![5u8, 1, 0];
+        let mut exchanges: Vec<(&str, Vec<u8>, SocketAddr)> = vec![("ipv4", req(5, 1, 0, 1, &ip4(a4), a4.port()), a4), ("domain", req(5, 1, 0, 3, &[9, b'l', b'o', b'c', b'a', b'l', b'h', b'o', b's', b't'], a4.port()), a4)];
+        if let Some(t6) = &w.t6
+            && let SocketAddr::V6(v6) = t6.addr
+        {
+            exchanges.push(("ipv6", req(5, 1, 0, 4, &v6.ip().octets(), t6.addr.port()), t6.addr));
+        }
+        let mut cases = vec![];
+        for (what, r, target) in &exchanges {
+            let tot = g.len() + r.len();
+            for gap in if thorough { vec![31u64, 61, 301] } else { vec![31u64, 301] } {
+                for cut in 1..tot {
+                    if !thorough && gap == 301 && cut % 3 != 1 {
+                        continue;
+                    }
+                    cases.push(Case { name: format!("{what} exchange cut at {cut} with {gap} s of silence"), greeting: g.clone(), request: Some(r.clone()), cuts: vec![cut], expect_method_ok: true, expect_tunnel: Some(*target), truncated: false, gap_s: gap });
+                }
+            }
+        }
+        let mut out = vec![];
+        for (i, c) in cases.iter().enumerate() {
+            out.push(run_case(&w, c, 500_000 + i).await);
+        }
+        Ok((cases, out))
+    });
+    let res = match (res, res2) {
+        (Ok((mut c, mut o)), Ok((c2, o2))) => {
+            c.extend(c2);
+            o.extend(o2);
+            Ok((c, o))
+        }
+        (Err(e), _) | (_, Err(e)) => Err(e),
+    };
     match res {
         Err(e) => rep.machinery(format!("LX start failed: {e}")),
         Ok((cases, all)) => {
@@ -358,5 +404,5 @@ pub fn run(tier: Tier) -> i32 {
             rep.sections.insert("cases".into(), json!(cases.len()));
         }
     }
-    rep.finish("LX through the real SOCKS5 front-end: versions {0,4,5,6,255} x every method list of length <= 3 over {00,01,02,80,ff} (+ 255-long lists); every command byte 0..=255; rsv, request version, address types {0,1,2,3,4,5,255}, domain lengths {0,1,255}, unresolvable / invalid names, ::1, refusing port; every truncation of the request; the canonical exchange under every single forced TCP cut and byte-at-a-time; each case checked against a reference SOCKS5 model (method selection, tunnel only for CONNECT, 'succeeded' only with a working tunnel to the requested target, failures end only their connection); non-trivial = distinct case")
+    rep.finish("LX through the real SOCKS5 front-end: versions {0,4,5,6,255} x every method list of length <= 3 over {00,01,02,80,ff} (+ 255-long lists); every command byte 0..=255; rsv, request version, address types {0,1,2,3,4,5,255}, domain lengths {0,1,255}, unresolvable / invalid names, ::1, refusing port; every truncation of the request; the canonical exchange under every single forced TCP cut and byte-at-a-time, and under every single cut with 31 / 301 s of silence between the pieces; each case checked against a reference SOCKS5 model (method selection, tunnel only for CONNECT, 'succeeded' only with a working tunnel to the requested target, failures end only their connection); non-trivial = distinct case")
 }
